@@ -243,6 +243,10 @@ class Interp:
                 return env[e['id']]
             if e.get('cv') is not None:
                 return int(e['cv'])
+            if e.get('dk') == 'global' and self.memory is not None and self.facts is not None and '[' in (e.get('t') or ''):
+                a = self.global_address(e)
+                if a is not None:
+                    return a
             raise Unsupported('unbound variable %s' % e.get('name'))
         if k == 'member':
             b = strip(e.get('base'))
@@ -284,6 +288,14 @@ class Interp:
                 new = wrap(old + (1 if op == '++' else -1), e.get('t') or strip(e['e']).get('t'))
                 self.store(e['e'], new, env, members)
                 return old if e.get('post') else new
+            if op == '&' and self.memory is not None:
+                inner = strip(e['e'])
+                if inner is not None and inner.get('k') == 'sub':
+                    a0 = self.ev(inner['base'], env, members)
+                    ix = self.ev(inner['idx'], env, members)
+                    if isinstance(a0, int) and isinstance(ix, int):
+                        ew, _ = width(inner.get('t'))
+                        return a0 + ix * max(1, ew // 8)
             v = self.ev(e['e'], env, members)
             if op == '&' and not isinstance(v, int):
                 return v                    # the address of a model object is the object
@@ -374,6 +386,21 @@ class Interp:
                 if name == 'max':
                     return (1 << (w - 1)) - 1 if sg else (1 << w) - 1
                 return -(1 << (w - 1)) if sg else 0
+            if name in ('memcpy', 'memmove', '__builtin_memcpy', '__builtin_memmove') and self.memory is not None and len(args) == 3 and all(isinstance(a, int) for a in args):
+                dst, src, n_ = args
+                data = [self.load(src + j, 1) for j in range(n_)]
+                if name.endswith('memcpy') and n_ and not (dst + n_ <= src or src + n_ <= dst):
+                    raise UndefinedBehaviour('memcpy of overlapping ranges')
+                for j in range(n_):
+                    self.write(dst + j, 1, data[j], ' (%s of %d bytes)' % (name, n_))
+                return dst
+            if name in ('memset', '__builtin_memset') and self.memory is not None and len(args) == 3 and all(isinstance(a, int) for a in args):
+                dst, val_, n_ = args
+                if n_ > (1 << 20):
+                    raise UndefinedBehaviour('memset of %d bytes' % n_)
+                for j in range(n_):
+                    self.write(dst + j, 1, val_ & 0xff, ' (memset of %d bytes)' % n_)
+                return dst
             if name in SSE:
                 return SSE[name](args)
             if name in BUILTINS:
@@ -383,12 +410,14 @@ class Interp:
                 sub_ = Interp(g, self.facts, self.call_hook, self.max_steps)
                 sub_.memory = self.memory
                 sub_.mem_stores = self.mem_stores
+                self._share(sub_)
                 return sub_.run({p['id']: a for p, a in zip(g.params, args)}, {})[0]
             if g is not None and len(g.params) == len(args) and e.get('obj') is not None and strip(e['obj']) is not None and strip(e['obj']).get('k') == 'this':
                 # a method of the same object: it shares the member state
                 sub = Interp(g, self.facts, self.call_hook, self.max_steps)
                 sub.mem_stores = self.mem_stores
                 sub.memory = self.memory
+                self._share(sub)
                 r, _, mem2, _ = sub.run({p['id']: a for p, a in zip(g.params, args)}, members)
                 members.clear()
                 members.update(mem2)
@@ -427,6 +456,56 @@ class Interp:
         if k == 'un' and False:
             pass
         raise Unsupported('expression kind %s (%s)' % (k, show(e0)[:50]))
+
+    def _share(self, sub):
+        """a callee works on the same byte memory: same regions, same tables"""
+        for a_ in ('writable', 'written', 'readonly', 'globals_at'):
+            if hasattr(self, a_):
+                setattr(sub, a_, getattr(self, a_))
+        if not hasattr(self, 'globals_at'):
+            self.globals_at = {}
+            self.readonly = getattr(self, 'readonly', [])
+            sub.globals_at, sub.readonly = self.globals_at, self.readonly
+        sub._nlocals = getattr(self, '_nlocals', 0) + 8
+
+    def global_address(self, e):
+        """address of a constant global array: its bytes are mapped read-only on first use"""
+        if not hasattr(self, 'globals_at'):
+            self.globals_at = {}
+        if e['id'] in self.globals_at:
+            return self.globals_at[e['id']]
+        for st_ in self.facts.statics:
+            if st_.get('id') == e['id'] and st_.get('const') and isinstance(st_.get('value'), dict) and 'arr' in st_['value']:
+                t = st_.get('t') or ''
+                ew, _ = width(t.split('[')[0])
+                ew = max(1, ew // 8)
+                base = 0x40000000 + 0x10000 * len(self.globals_at)
+                a = base
+                for el in st_['value']['arr']:
+                    if not isinstance(el, (str, int)):
+                        return None
+                    v = int(el) & ((1 << (8 * ew)) - 1)
+                    for j in range(ew):
+                        self.memory[a + j] = (v >> (8 * j)) & 0xff
+                    a += ew
+                if not hasattr(self, 'readonly'):
+                    self.readonly = []
+                self.readonly.append((base, a))
+                self.globals_at[e['id']] = base
+                return base
+        return None
+
+    def write(self, addr, n, v, what=''):
+        for lo, hi in getattr(self, 'readonly', []):
+            if lo <= addr < hi:
+                raise UndefinedBehaviour('store into a constant table')
+        wr = getattr(self, 'writable', None)
+        if wr is not None and not any(lo <= addr and addr + n <= hi for lo, hi in wr):
+            raise UndefinedBehaviour('store of %d byte(s) at offset %d relative to the buffer start%s' % (n, addr - wr[0][0], what))
+        for j in range(n):
+            self.memory[addr + j] = (v >> (8 * j)) & 0xff
+        if hasattr(self, 'written'):
+            self.written.update(range(addr, addr + n))
 
     def load(self, addr, n):
         v = 0
@@ -493,6 +572,19 @@ class Interp:
                 members[path] = v
                 return
         if (l.get('k') == 'un' and l.get('op') == '*') or l.get('k') == 'sub':
+            if self.memory is not None and isinstance(v, int):
+                if l.get('k') == 'sub':
+                    a0 = self.ev(l['base'], env, members)
+                    ix = self.ev(l['idx'], env, members)
+                    ew, _ = width(l.get('t'))
+                    addr = a0 + ix * max(1, ew // 8) if isinstance(a0, int) and isinstance(ix, int) else None
+                else:
+                    addr = self.ev(l['e'], env, members)
+                    ew, _ = width(l.get('t'))
+                if isinstance(addr, int):
+                    self.write(addr, max(1, ew // 8), v & ((1 << ew) - 1))
+                    self.mem_stores.append((show(l), v))
+                    return
             # a store through a pointer: memory is not modelled; recorded for the caller
             self.mem_stores.append((show(l), v))
             return
@@ -523,6 +615,19 @@ class Interp:
                     return v, env, members, False
                 if k == 'decl':
                     for vd in s_['vars']:
+                        import re as _re2
+                        ma = _re2.match(r'^(?:unsigned |signed )?(char|uint8_t|int8_t)\[(\d+)\]$', (vd.get('t') or '').replace('const ', ''))
+                        if ma and self.memory is not None and vd.get('init') is None:
+                            # a local byte array: its own writable region (contents indeterminate)
+                            nloc = getattr(self, '_nlocals', 0)
+                            self._nlocals = nloc + 1
+                            a_ = 0x20000000 + 0x1000 * nloc
+                            for j_ in range(int(ma.group(2))):
+                                self.memory[a_ + j_] = 0xCD
+                            if getattr(self, 'writable', None) is not None:
+                                self.writable.append((a_, a_ + int(ma.group(2))))
+                            env[vd['id']] = a_
+                            continue
                         if vd.get('init') is not None:
                             try:
                                 env[vd['id']] = wrap(self.ev(vd['init'], env, members), vd.get('t'))
